@@ -200,6 +200,7 @@ type obs struct {
 	before   [][]string          // PROC/CLR ops: regular files before
 	panics   []string
 	hung     bool
+	skipped  bool // not run: a hang was already established for this family
 	disturbed bool // real-clock mode only: an operation was delayed by more than 1.5 s
 }
 
@@ -374,8 +375,24 @@ func (o *hop) fileArg(home string) string {
 	return strings.ReplaceAll(string(vh.UnHex(o.File)), "@home", home)
 }
 
+// hangEstablished: a log call did not return within the watchdog.  The hang is reported once; the
+// families of histories that fill the id table (where it was met) are not fed again, because each
+// further call would block for the whole watchdog.
+var hangEstablished bool
+
+func fillsTable(c *hcase) bool {
+	switch strings.TrimSuffix(c.Gen, "+probe") {
+	case "manyids", "fulltable", "evict":
+		return true
+	}
+	return len(c.Ops) > 600
+}
+
 // runImpl executes the history on a fresh real logger.
 func runImpl(c *hcase) *obs {
+	if hangEstablished && fillsTable(c) {
+		return &obs{skipped: true, files: map[string][]byte{}}
+	}
 	if !realClock {
 		clockInit()
 	}
@@ -446,6 +463,7 @@ ops:
 				g = vh.Guard(func() { callLog(l, o.Meth, string(vh.UnHex(o.ID)), string(vh.UnHex(o.Msg))) })
 			}
 			if g.Timeout {
+				hangEstablished = true // once is enough: every further call of this family would block as long
 				ob.outs[i] = "timeout"
 				ob.hung = true
 				ob.panics = append(ob.panics, fmt.Sprintf("op %d %s: did not return within 120 s", i, o.Meth))
